@@ -80,37 +80,56 @@ Record cki : Type := mkCki {
   cReserved : list N; cExt : list N; cRawSize : N }.
 Definition zero_cki : cki := mkCki 0 0 0 false 0 0 [] [] 0.
 
+Definition cset_version (c : cki) (x : N) : cki :=
+  mkCki x (cFlags c) (cVolume c) (cNotify c) (cFek c) (cStrength c) (cReserved c) (cExt c) (cRawSize c).
+Definition cset_flags (c : cki) (x : N) : cki :=
+  mkCki (cVersion c) x (cVolume c) (cNotify c) (cFek c) (cStrength c) (cReserved c) (cExt c) (cRawSize c).
+Definition cset_volume (c : cki) (x : N) : cki :=
+  mkCki (cVersion c) (cFlags c) x (cNotify c) (cFek c) (cStrength c) (cReserved c) (cExt c) (cRawSize c).
+Definition cset_notify (c : cki) (x : bool) : cki :=
+  mkCki (cVersion c) (cFlags c) (cVolume c) x (cFek c) (cStrength c) (cReserved c) (cExt c) (cRawSize c).
+Definition cset_fek (c : cki) (x : N) : cki :=
+  mkCki (cVersion c) (cFlags c) (cVolume c) (cNotify c) x (cStrength c) (cReserved c) (cExt c) (cRawSize c).
+Definition cset_strength (c : cki) (x : N) : cki :=
+  mkCki (cVersion c) (cFlags c) (cVolume c) (cNotify c) (cFek c) x (cReserved c) (cExt c) (cRawSize c).
+Definition cset_reserved (c : cki) (x : list N) : cki :=
+  mkCki (cVersion c) (cFlags c) (cVolume c) (cNotify c) (cFek c) (cStrength c) x (cExt c) (cRawSize c).
+Definition cset_ext (c : cki) (x : list N) : cki :=
+  mkCki (cVersion c) (cFlags c) (cVolume c) (cNotify c) (cFek c) (cStrength c) (cReserved c) x (cRawSize c).
+Definition cset_rawsize (c : cki) (x : N) : cki :=
+  mkCki (cVersion c) (cFlags c) (cVolume c) (cNotify c) (cFek c) (cStrength c) (cReserved c) (cExt c) x.
+
 (* func (cki *CustomKeyInformation) FromBytes(blob, version) error: the structure is filled field by field
    and keeps what was assigned when an error or an early return ends the call; the boolean is "error" *)
 Definition cki_from_bytes (c : cki) (blob : list N) : R (cki * bool) :=
   let n := wrap32 (lenN blob) in
-  let c := mkCki (cVersion c) (cFlags c) (cVolume c) (cNotify c) (cFek c) (cStrength c) (cReserved c) (cExt c) n in
+  let c := cset_rawsize c n in
   if lenN blob <? 2 then Ok (c, true) else
   let* v := go_index blob 0 in
-  let c := mkCki v (cFlags c) (cVolume c) (cNotify c) (cFek c) (cStrength c) (cReserved c) (cExt c) n in
+  let c := cset_version c v in
   if negb (v =? 1) then Ok (c, true) else
   let* f := go_index blob 1 in
-  let c := mkCki v f (cVolume c) (cNotify c) (cFek c) (cStrength c) (cReserved c) (cExt c) n in
+  let c := cset_flags c f in
   if negb ((2 <? n) && (3 <=? n)) then Ok (c, false) else
   let* vol := go_index blob 2 in
-  let c := mkCki v f vol (cNotify c) (cFek c) (cStrength c) (cReserved c) (cExt c) n in
+  let c := cset_volume c vol in
   if negb ((3 <? n) && (4 <=? n)) then Ok (c, false) else
   let* nt := go_index blob 3 in
-  let c := mkCki v f vol (negb (nt =? 0)) (cFek c) (cStrength c) (cReserved c) (cExt c) n in
+  let c := cset_notify c (negb (nt =? 0)) in
   if negb ((4 <? n) && (5 <=? n)) then Ok (c, false) else
   let* fek := go_index blob 4 in
-  let c := mkCki v f vol (negb (nt =? 0)) fek (cStrength c) (cReserved c) (cExt c) n in
+  let c := cset_fek c fek in
   if negb ((5 <? n) && (9 <=? n)) then Ok (c, false) else
   let* sb := go_slice blob 5 9 in
   let* st := go_le_uint 4 sb in
-  let c := mkCki v f vol (negb (nt =? 0)) fek st (cReserved c) (cExt c) n in
+  let c := cset_strength c st in
   if negb ((9 <? n) && (19 <=? n)) then Ok (c, false) else
   let* res := go_slice blob 9 19 in
-  let c := mkCki v f vol (negb (nt =? 0)) fek st res (cExt c) n in
+  let c := cset_reserved c res in
   if negb (19 <? n) then Ok (c, false) else
   let* rest := go_from blob 19 in                       (* make(n-19); copy(…, blob[19:]) *)
   let ext := firstn (N.to_nat (n - 19)) rest ++ repeatN 0 (N.to_nat (n - 19) - length rest) in
-  Ok (mkCki v f vol (negb (nt =? 0)) fek st res ext n, false).
+  Ok (cset_ext c ext, false).
 
 (* func (cki *CustomKeyInformation) ToBytes() []byte *)
 Definition cki_to_bytes (c : cki) : list N :=
